@@ -11,6 +11,13 @@ package hashslotmigration_test
 // exported constructor's result), and the delta forwarder through SetDeltaForwarder bound to a
 // gated channel whose loss, duplication and reordering are chosen by the TLC behaviour.
 //
+// A target batch (Deliver) may carry, next to its deltas, one command of the target's own
+// traffic (the step's "mate"), built with the real encoders: "stale" = a conditional command
+// conditioned on a row that does not exist (the write batch's commit fails, the state machine
+// re-applies the batch command by command), "refused" = an ordinary write for a hash slot the
+// target does not own (ApplyBatch refuses the whole batch).  Either way the specification says
+// what must be on the target afterwards; nothing in the comparison knows about the mate.
+//
 // Oracle for "every accepted write exactly once": a third real state machine (owner of hash
 // slot 5) to which every accepted write is applied exactly once, in the order the target first
 // saw it (snapshot content first, then first delivery of each delta, then direct writes).  The
@@ -343,6 +350,60 @@ func (s *sut) oracleApply(data []byte) error {
 	return err
 }
 
+// mateOf: the co-batched command of a target batch ("none" when the step names none).
+func mateOf(ev map[string]any) string {
+	if m := kit.Str(ev, "mate"); m != "" {
+		return m
+	}
+	return "none"
+}
+
+// actName: the action with its mate, for coverage and violation signatures.
+func actName(ev map[string]any) string {
+	a := kit.Str(ev, "a")
+	if a == "Deliver" && mateOf(ev) != "none" {
+		return a + "+" + mateOf(ev)
+	}
+	return a
+}
+
+func insertCmd(cmds []multiraft.Command, pos int, c multiraft.Command) []multiraft.Command {
+	out := make([]multiraft.Command, 0, len(cmds)+1)
+	out = append(out, cmds[:pos]...)
+	out = append(out, c)
+	return append(out, cmds[pos:]...)
+}
+
+// staleMate: a conditional command of the target's ordinary traffic whose observation is stale
+// (the row it is conditioned on does not exist): accepted by the encoders and by staging, it
+// fails only when the write batch commits.  Built as runner/harness/slotfsm builds its "stale"
+// commands.  It addresses a hash slot the target owns: its own one, after the hand-over
+// sometimes the migrated one.
+func (s *sut) staleMate() (multiraft.Command, uint16) {
+	r := s.rng
+	hs := hsT
+	if s.phase == "done" && r.Intn(2) == 0 {
+		hs = hsH
+	}
+	now := baseMS + 1000 + int64(r.Intn(1000))
+	ghost := []string{"ghost", "ga"}[r.Intn(2)] // "ga" has a channel row at times, never runtime metadata or a task
+	var data []byte
+	switch r.Intn(3) {
+	case 0:
+		data = fsm.EncodeAdvanceChannelRetentionThroughSeqCommand(metadb.ChannelRetentionAdvance{ChannelID: ghost, ChannelType: 2,
+			ExpectedChannelEpoch: 1, ExpectedLeaderEpoch: 1, ExpectedLeader: 1, ExpectedLeaseUntilMS: now, RetentionThroughSeq: 5, RetentionUpdatedAtMS: now})
+	case 1:
+		data = fsm.EncodeClaimChannelMigrationTaskCommand(metadb.ChannelMigrationTaskClaim{Guard: metadb.ChannelMigrationTaskGuard{ChannelID: ghost, ChannelType: 2,
+			TaskID: "TX", ExpectedStatus: metadb.ChannelMigrationStatusPending, ExpectedPhase: metadb.ChannelMigrationPhaseValidate}, Status: metadb.ChannelMigrationStatusRunning,
+			Phase: metadb.ChannelMigrationPhaseValidate, OwnerNodeID: 1, OwnerLeaseUntilMS: now + 10, NowMS: now, UpdatedAtMS: now})
+	default:
+		data = fsm.EncodeAdvanceChannelMigrationTaskCommand(metadb.ChannelMigrationTaskAdvance{Guard: metadb.ChannelMigrationTaskGuard{ChannelID: ghost, ChannelType: 2,
+			TaskID: "TX", ExpectedStatus: metadb.ChannelMigrationStatusPending, ExpectedPhase: metadb.ChannelMigrationPhaseValidate}, Status: metadb.ChannelMigrationStatusRunning,
+			Phase: metadb.ChannelMigrationPhaseValidate, UpdatedAtMS: now})
+	}
+	return multiraft.Command{HashSlot: hs, Data: data}, hs
+}
+
 type obs struct {
 	Outbox []int64 `json:"outbox"`
 	Fence  int64   `json:"fence"`
@@ -523,13 +584,57 @@ func (s *sut) do(ev map[string]any) (out stepResult, viol string, infra error) {
 			ids = append(ids, i)
 			cmds = append(cmds, multiraft.Command{HashSlot: hsH, Data: fsm.EncodeApplyDeltaCommand(srcSlot, uint64(i), hsH, msg.data)})
 		}
-		_, aerr, pan := s.tgt.apply(cmds)
+		// the co-batched command of the target's own traffic
+		mate, matePos, mateHS := mateOf(ev), -1, hsT
+		var mateBefore map[string]string
+		switch mate {
+		case "none":
+		case "stale":
+			var mc multiraft.Command
+			mc, mateHS = s.staleMate()
+			matePos = s.rng.Intn(len(cmds) + 1)
+			cmds = insertCmd(cmds, matePos, mc)
+			var err error
+			if mateBefore, err = s.tgt.content(mateHS); err != nil {
+				return out, "", err
+			}
+		case "refused":
+			// an ordinary write for a hash slot the target never owns
+			matePos = len(cmds)
+			if s.rng.Intn(3) == 0 {
+				matePos = s.rng.Intn(len(cmds) + 1)
+			}
+			cmds = insertCmd(cmds, matePos, multiraft.Command{HashSlot: hsO, Data: s.payload()})
+		default:
+			return out, "", fmt.Errorf("unknown mate %q", mate)
+		}
+		res["mate"] = "none"
+		rs, aerr, pan := s.tgt.apply(cmds)
 		if pan != nil {
 			return out, fmt.Sprintf("target ApplyBatch panicked: %v", pan), nil
 		}
 		if aerr != nil {
 			res["err"] = true
 			break
+		}
+		if len(rs) != len(cmds) {
+			return out, fmt.Sprintf("target ApplyBatch answered %d results for %d commands", len(rs), len(cmds)), nil
+		}
+		if mate == "stale" {
+			if string(rs[matePos]) == fsm.ApplyResultStaleMeta {
+				res["mate"] = "stale"
+			} else {
+				res["mate"] = "answered:" + string(rs[matePos])
+			}
+			if mateHS != hsH { // hash slot H itself is compared with the oracle below
+				after, err := s.tgt.content(mateHS)
+				if err != nil {
+					return out, "", err
+				}
+				if d := diffContent(mateBefore, after); d != "" {
+					return out, "a conditional command answered stale changed metadata: " + d, nil
+				}
+			}
 		}
 		for _, i := range ids {
 			if s.first[i] {
@@ -722,7 +827,7 @@ func (h *harness) replayBehaviour(bi int, b kit.Behaviour) {
 		return
 	}
 	for si, st := range b.Steps[1:] {
-		a := kit.Str(st.Ev, "a")
+		a := actName(st.Ev)
 		h.rep.Cover(a)
 		out, viol, ierr := s.do(kit.CloneEv(st.Ev))
 		replay := map[string]any{"behaviour": b, "step": si + 1, "observed": map[string]any{"res": out.res, "st": out.st}}
@@ -844,7 +949,15 @@ func (h *harness) drive(rec *kit.Recorder) {
 						ms = append(ms, j)
 					}
 				}
-				ev = kit.Ev("Deliver", "ms", ms)
+				// half of the target batches carry only deltas, a third a stale mate, a sixth a refused one
+				mate := "none"
+				switch d := h.rng.Intn(6); {
+				case d >= 5:
+					mate = "refused"
+				case d >= 3:
+					mate = "stale"
+				}
+				ev = kit.Ev("Deliver", "ms", ms, "mate", mate)
 			case r < 68 && len(fl) > 0:
 				ev = kit.Ev([]string{"Dup", "Drop"}[h.rng.Intn(2)], "i", pick(fl))
 			case r < 80 && len(o.Outbox) > 0:
@@ -874,7 +987,7 @@ func (h *harness) drive(rec *kit.Recorder) {
 			case r < 50:
 				ev = kit.Ev("SrcApply", "ks", kinds(true), "lose", false)
 			case r < 70 && len(fl) > 0:
-				ev = kit.Ev("Deliver", "ms", []any{pick(fl)})
+				ev = kit.Ev("Deliver", "ms", []any{pick(fl)}, "mate", []string{"none", "stale"}[h.rng.Intn(2)])
 			case r < 80 && o.Fence != 0:
 				ev = kit.Ev("Cleanup")
 			default:
@@ -886,11 +999,11 @@ func (h *harness) drive(rec *kit.Recorder) {
 			h.rep.Infra("driver %s: %v", kit.JSON(ev), ierr)
 			return
 		}
-		h.rep.Cover(kit.Str(ev, "a"))
+		h.rep.Cover(actName(ev))
 		ev["res"] = out.res
 		buf = append(buf, kit.Step{Ev: ev, St: out.st})
 		if viol != "" {
-			h.violate("state", sigOf(kit.Str(ev, "a"), "content"), fmt.Sprintf("driver step %d %s: %s", len(buf), kit.JSON(ev), viol), map[string]any{"steps": buf})
+			h.violate("state", sigOf(actName(ev), "content"), fmt.Sprintf("driver step %d %s: %s", len(buf), kit.JSON(ev), viol), map[string]any{"steps": buf})
 			return
 		}
 	}
